@@ -1573,8 +1573,14 @@ class Exec:
             if cname in ("list", "dict", "tuple"):
                 return z3.BoolVal(False)
             if v.kind == "val":
-                # opaque values may be objects of any class: unknown
-                return z3.And(ops.tag_is(v, "opaque"), z3.Bool(fresh_name(f"isinst_{cname}")))
+                # opaque values may be objects of any class: an uninterpreted (deterministic) predicate of the object's identity, pinned for the objects
+                # of known class that this path has stored as values
+                t = ops.to_val(v)
+                term = z3.Function(f"isinst_{cname}", Val, z3.BoolSort())(t)
+                for oid, o in self.heap.items():
+                    if isinstance(o, HObj) and getattr(o, "stored", False) and o.cf is not None:
+                        term = z3.If(t == Val.OpaqueV(z3.IntVal(oid)), z3.BoolVal(self.facts.is_subclass(o.cf, cname)), term)
+                return z3.And(ops.tag_is(v, "opaque"), term)
             return z3.BoolVal(False)
         raise OutsideSubset("isinstance")
 
@@ -1802,8 +1808,21 @@ class Exec:
             return I(v.idx)
         if isinstance(v, Ref) and isinstance(self.heap.get(v.oid), HObj):
             # an object stored in a list[val] is its identity
-            self.heap[v.oid].stored = True
-            return ops.V(Val.OpaqueV(z3.IntVal(v.oid)), ("opaque",))
+            o = self.heap[v.oid]
+            ident = Val.OpaqueV(z3.IntVal(v.oid))
+            if getattr(o, "fresh", False) and not getattr(o, "stored", False):
+                # an object constructed by this call is not among the values the entry state holds (lists and scalar fields of Val materialised so far)
+                entry = self.old_stack[0] if getattr(self, "old_stack", None) else self.old_state
+                for oo in ((entry or {}).get("heap") or {}).values():
+                    if isinstance(oo, HList) and oo.elem == "val":
+                        qi = z3.Int(fresh_name("fr"))
+                        self.pc.append(z3.ForAll([qi], z3.Implies(z3.And(qi >= 0, qi < z3.Length(oo.seq)), oo.seq[qi] != ident)))   # (no explicit pattern: z3 rewrites seq.nth, a pattern on it never matches)
+                    elif isinstance(oo, HObj):
+                        for fv in oo.fields.values():
+                            if isinstance(fv, SV) and fv.kind == "val":
+                                self.pc.append(fv.term != ident)
+            o.stored = True
+            return ops.V(ident, ("opaque",))
         if not isinstance(v, SV):
             raise OutsideSubset("reference stored in a typed list")
         return v
@@ -2815,6 +2834,19 @@ class Exec:
         raise OutsideSubset("with")
 
     def s_Delete(self, s):
+        # del xs[i] on a symbolic list (z3 sequence): negative indices count from the end, out of range raises IndexError
+        if len(s.targets) == 1 and isinstance(s.targets[0], ast.Subscript) and not isinstance(s.targets[0].slice, ast.Slice):
+            base = self.eval(s.targets[0].value)
+            idx = self.eval(s.targets[0].slice)
+            if isinstance(base, Ref) and isinstance(self.heap[base.oid], HList) and isinstance(idx, SV) and idx.kind == "int":
+                o = self.heap[base.oid]
+                ln = z3.Length(o.seq)
+                i = idx.term
+                self.maybe_raise(z3.Or(i >= ln, i < -ln), "IndexError", "list assignment index out of range")
+                k = z3.If(i < 0, i + ln, i)
+                o.seq = z3.Concat(z3.Extract(o.seq, 0, k), z3.Extract(o.seq, k + 1, ln - k - 1))
+                self.written_paths.add(("heap", base.oid))
+                return
         raise OutsideSubset("del")
 
     def s_Assert(self, s):
